@@ -68,3 +68,5 @@ func believeIfReal(judge func(real bool) core.Outcome) core.Outcome {
 	}
 	return o
 }
+
+func writeFile(path, content string) error { return os.WriteFile(path, []byte(content), 0o644) }
